@@ -3,7 +3,9 @@
    the equality of the modelled traversal with it (every depth), v1_process_edge_rule,
    and v1_traversal (depth <= 3, every sign assignment: the V1 mesh is the dual mesh). *)
 From Coq Require Import List ZArith NArith Lia Bool Permutation.
-From Sdfx Require Import Generated.DCTables Algo.DualGrid Algo.DCModel.
+From Sdfx Require Import Generated.DCTables.
+From Sdfx Require Import Algo.DualGrid.
+From Sdfx Require Import Algo.DCModel.
 Import ListNotations.
 Open Scope Z_scope.
 
@@ -227,7 +229,7 @@ Section Trav.
       + apply flat_map_ext_in. intros i Hi.
         rewrite (map2 (sub lc)), !sub_S. rewrite (map2 (fun c k => coff_l l c k)).
         apply IH; [lia|].
-        destruct Hd as [<-|[<-|[<-|[]]]]; destruct Hi as [<-|[<-|[<-|[<-|[]]]]]; tabs; tauto.
+        destruct Hd as [<-|[<-|[<-|[]]]]; destruct Hi as [<-|[<-|[<-|[<-|[]]]]]; tabs; cbn; tauto.
       + apply flat_map_ext_in. intros i Hi.
         destruct Hd as [<-|[<-|[<-|[]]]]; destruct Hi as [<-|[<-|[<-|[<-|[]]]]]; tabs;
           rewrite !sub_S; apply edge_proc_vis; lia.
@@ -245,7 +247,7 @@ Section Trav.
       rewrite !flat_map_app, !flat_map_flat_map. f_equal; [|f_equal].
       + apply flat_map_ext_in. intros i _. apply IH. lia.
       + apply flat_map_ext_in. intros i Hi. apply face_proc_vis; [lia|].
-        repeat (destruct Hi as [<-|Hi]; [tabs; tauto|]). destruct Hi.
+        repeat (destruct Hi as [<-|Hi]; [tabs; cbn; tauto|]). destruct Hi.
       + apply flat_map_ext_in. intros i Hi. rewrite (map_ext _ (fun j => Some (l, coff_l l off (nthZ (nthZ dcCellProcEdgeMask i []) j 0)))) by reflexivity.
         cbn [map]. apply edge_proc_vis. lia.
   Qed.
@@ -253,3 +255,155 @@ Section Trav.
   Theorem v1_mesh_is_visits d : v1_mesh_lc lc d = flat_map emit (cvis d (0, 0, 0)).
   Proof. apply cell_proc_vis. lia. Qed.
 End Trav.
+
+(* ------------------------------------------------------------------ dcContourProcessEdge *)
+Lemma leaf_signs_eq (s : cell -> bool) x y z :
+  map (fun k => s (cadd (x, y, z) (vec3 k))) dcChildMinOffsets =
+  [s (x, y, z); s (x, y, z + 1); s (x, y + 1, z); s (x, y + 1, z + 1);
+   s (x + 1, y, z); s (x + 1, y, z + 1); s (x + 1, y + 1, z); s (x + 1, y + 1, z + 1)].
+Proof. cbn. rewrite !Z.add_0_r. reflexivity. Qed.
+
+Lemma leaf_bits s x y z :
+  map (bit (leaf_corners s (x, y, z))) [0; 1; 2; 3; 4; 5; 6; 7] =
+  [s (x, y, z); s (x, y, z + 1); s (x, y + 1, z); s (x, y + 1, z + 1);
+   s (x + 1, y, z); s (x + 1, y, z + 1); s (x + 1, y + 1, z); s (x + 1, y + 1, z + 1)].
+Proof. unfold leaf_corners. rewrite leaf_signs_eq. apply mask_bits. Qed.
+
+Lemma nonempty_eq s x y z :
+  nonempty (leaf_corners s) (x, y, z) =
+  negb (all_equal [s (x, y, z); s (x, y, z + 1); s (x, y + 1, z); s (x, y + 1, z + 1);
+                   s (x + 1, y, z); s (x + 1, y, z + 1); s (x + 1, y + 1, z); s (x + 1, y + 1, z + 1)]).
+Proof. unfold nonempty, leaf_corners. rewrite leaf_signs_eq. now rewrite mask_full_or_empty. Qed.
+
+Ltac pe_compute :=
+  unfold process_edge, slots, quad_cells, lf; cbn [map dirZ];
+  cbv [fold_left pe_step nthZ nth Z.to_nat Pos.to_nat Pos.iter_op Init.Nat.add dcProcessEdgeMask edge_corners dcEdgevmap
+       node_cell node_size pow2 Z.of_nat Z.pow Z.pow_pos Pos.iter Z.mul Z.ltb Z.compare Pos.compare Pos.compare_cont app];
+  cbn [csub cadd unit ax1 ax2].
+
+(* the quad emitted for four size-1 leaves in node order around the lattice edge (a, p):
+   the dual quad of that edge, oriented from solid to void; nothing without a sign change *)
+Theorem v1_process_edge_rule s a p :
+  Permutation (process_edge (leaf_corners s) (map lf (slots a p)) (dirZ a))
+              (match s p, s (cadd p (unit a)) with
+               | true, false => fan (quad_cells a p)
+               | false, true => fan (rev_quad (quad_cells a p))
+               | _, _ => []
+               end).
+Proof.
+  destruct p as [[x y] z]. destruct a.
+  - pe_compute.
+    set (X := x - (0 + 0)). set (Y := y - (1 + 0)). set (Z0 := z - (0 + 1)).
+    pose proof (leaf_bits s X Y Z0) as B. injection B as _ _ _ B3 _ _ _ B7.
+    rewrite B3, B7. subst X Y Z0.
+    replace (x - (0 + 0), y - (1 + 0) + 1, z - (0 + 1) + 1) with (x, y, z) by tri_eq.
+    replace (x - (0 + 0) + 1, y - (1 + 0) + 1, z - (0 + 1) + 1) with (x + 1, y + 0, z + 0) by tri_eq.
+    destruct (s (x, y, z)), (s (x + 1, y + 0, z + 0)); cbn; try apply perm_nil.
+    + eapply perm_trans; [apply perm_swap|]. apply Permutation_refl'. tri_eq.
+    + apply Permutation_refl'. tri_eq.
+  - pe_compute.
+    set (X := x - (0 + 1)). set (Y := y - (0 + 0)). set (Z0 := z - (1 + 0)).
+    pose proof (leaf_bits s X Y Z0) as B. injection B as _ _ _ _ _ B5 _ B7.
+    rewrite B5, B7. subst X Y Z0.
+    replace (x - (0 + 1) + 1, y - (0 + 0), z - (1 + 0) + 1) with (x, y, z) by tri_eq.
+    replace (x - (0 + 1) + 1, y - (0 + 0) + 1, z - (1 + 0) + 1) with (x + 0, y + 1, z + 0) by tri_eq.
+    destruct (s (x, y, z)), (s (x + 0, y + 1, z + 0)); cbn; try apply perm_nil.
+    + eapply perm_trans; [apply perm_swap|]. apply Permutation_refl'. tri_eq.
+    + apply Permutation_refl'. tri_eq.
+  - pe_compute.
+    set (X := x - (1 + 0)). set (Y := y - (0 + 1)). set (Z0 := z - (0 + 0)).
+    pose proof (leaf_bits s X Y Z0) as B. injection B as _ _ _ _ _ _ B6 B7.
+    rewrite B6, B7. subst X Y Z0.
+    replace (x - (1 + 0) + 1, y - (0 + 1) + 1, z - (0 + 0)) with (x, y, z) by tri_eq.
+    replace (x - (1 + 0) + 1, y - (0 + 1) + 1, z - (0 + 0) + 1) with (x + 0, y + 0, z + 1) by tri_eq.
+    destruct (s (x, y, z)), (s (x + 0, y + 0, z + 1)); cbn; try apply perm_nil.
+    + eapply perm_trans; [apply perm_swap|]. apply Permutation_refl'. tri_eq.
+    + apply Permutation_refl'. tri_eq.
+Qed.
+
+(* ------------------------------------------------------------------ V1 = dual mesh, depth <= 3 *)
+Lemma all_equal_false_of_diff (l : list bool) i j : (i < length l)%nat -> (j < length l)%nat ->
+  nth i l false <> nth j l false -> all_equal l = false.
+Proof.
+  intros Hi Hj H. destruct (all_equal l) eqn:E; [|reflexivity]. exfalso. apply H.
+  unfold all_equal in E. apply orb_true_iff in E as [E|E]; rewrite forallb_forall in E.
+  - rewrite (E _ (nth_In l false Hi)), (E _ (nth_In l false Hj)). reflexivity.
+  - pose proof (E _ (nth_In l false Hi)) as A. pose proof (E _ (nth_In l false Hj)) as B.
+    apply negb_true_iff in A, B. congruence.
+Qed.
+
+Lemma sneq (s : cell -> bool) P1 P2 Q1 Q2 : s P1 <> s P2 -> P1 = Q1 -> P2 = Q2 -> s Q1 <> s Q2.
+Proof. congruence. Qed.
+
+(* a sign change on the edge makes its four cells leaves *)
+Lemma slots_nonempty s a p : s p <> s (cadd p (unit a)) ->
+  forallb (nonempty (leaf_corners s)) (slots a p) = true.
+Proof.
+  intros H. destruct p as [[x y] z]. destruct a; unfold slots, quad_cells; cbn [forallb csub cadd unit ax1 ax2];
+    rewrite !nonempty_eq.
+  - rewrite (all_equal_false_of_diff _ 3 7), (all_equal_false_of_diff _ 2 6), (all_equal_false_of_diff _ 1 5), (all_equal_false_of_diff _ 0 4);
+      try reflexivity; try (cbn; lia); cbn [nth]; (eapply sneq; [exact H | cbn; tri_eq | cbn; tri_eq]).
+  - rewrite (all_equal_false_of_diff _ 5 7), (all_equal_false_of_diff _ 1 3), (all_equal_false_of_diff _ 4 6), (all_equal_false_of_diff _ 0 2);
+      try reflexivity; try (cbn; lia); cbn [nth]; (eapply sneq; [exact H | cbn; tri_eq | cbn; tri_eq]).
+  - rewrite (all_equal_false_of_diff _ 6 7), (all_equal_false_of_diff _ 4 5), (all_equal_false_of_diff _ 2 3), (all_equal_false_of_diff _ 0 1);
+      try reflexivity; try (cbn; lia); cbn [nth]; (eapply sneq; [exact H | cbn; tri_eq | cbn; tri_eq]).
+Qed.
+
+Lemma emit_edge n s a p :
+  Permutation (flat_map (emit (leaf_corners s)) (if interior n a p then [(dirZ a, slots a p)] else []))
+              (edge_tris n s a p).
+Proof.
+  unfold edge_tris. destruct (interior n a p); [|apply perm_nil].
+  cbn [flat_map emit]. rewrite app_nil_r.
+  pose proof (v1_process_edge_rule s a p) as R.
+  destruct (s p) eqn:E1, (s (cadd p (unit a))) eqn:E2.
+  - apply Permutation_sym, Permutation_nil in R. rewrite R. destruct (forallb _ _); apply perm_nil.
+  - rewrite slots_nonempty by congruence. exact R.
+  - rewrite slots_nonempty by congruence. exact R.
+  - apply Permutation_sym, Permutation_nil in R. rewrite R. destruct (forallb _ _); apply perm_nil.
+Qed.
+
+Lemma perm_flat_map {A B} (f : A -> list B) l m : Permutation l m -> Permutation (flat_map f l) (flat_map f m).
+Proof.
+  induction 1 as [|x l m _ IH|x y l|l m k _ IH1 _ IH2]; cbn [flat_map].
+  - constructor.
+  - now apply Permutation_app_head.
+  - rewrite !app_assoc. apply Permutation_app_tail, Permutation_app_comm.
+  - now transitivity (flat_map f m).
+Qed.
+
+(* the expected visits, emitted, are the dual mesh: every lattice size *)
+Lemma expected_is_dual n s :
+  Permutation (flat_map (emit (leaf_corners s)) (expected_visits n)) (dual_mesh n s).
+Proof.
+  unfold expected_visits, dual_mesh. rewrite flat_map_flat_map.
+  apply flat_map_perm_ext. intros a _. rewrite flat_map_flat_map.
+  apply flat_map_perm_ext. intros p _. apply emit_edge.
+Qed.
+
+(* THE V1 TRAVERSAL, depth <= 3 (2, 4 or 8 cells per axis), EVERY sign assignment:
+   the index triangles of contourCellProc are the dual mesh, as a multiset.
+   [partial] for general depth the missing fact is
+       forall d, Permutation (cvis d (0,0,0)) (expected_visits (cube d))
+   (checked here by evaluation for d = 1, 2, 3); everything else holds for every depth. *)
+Theorem v1_traversal_partial d s : In d [1%nat; 2%nat; 3%nat] ->
+  Permutation (v1_mesh s d) (dual_mesh (cube d) s).
+Proof.
+  intros Hd. unfold v1_mesh. rewrite v1_mesh_is_visits.
+  eapply perm_trans; [|apply expected_is_dual].
+  apply perm_flat_map, perm_check_sound.
+  pose proof v1_visits_depth_le_3 as V. rewrite forallb_forall in V. now apply V.
+Qed.
+
+Corollary v1_mesh_closed d s : In d [1%nat; 2%nat; 3%nat] -> boundary_outside (cube d) s -> closed (v1_mesh s d).
+Proof.
+  intros Hd Hb. eapply closed_perm; [apply Permutation_sym, v1_traversal_partial, Hd | now apply dual_mesh_closed].
+Qed.
+
+(* the same statement for every depth, conditional on the one missing fact *)
+Theorem v1_traversal_if_visits d s :
+  Permutation (cvis d (0, 0, 0)) (expected_visits (cube d)) -> Permutation (v1_mesh s d) (dual_mesh (cube d) s).
+Proof.
+  intros V. unfold v1_mesh. rewrite v1_mesh_is_visits.
+  eapply perm_trans; [|apply expected_is_dual]. now apply perm_flat_map.
+Qed.
